@@ -28,6 +28,7 @@ CONSTANTS Mixes,        \* set of command mixes; a mix is a sequence of kinds, t
           EventSides,   \* endpoints whose Poll may report an event
           MaxEdits, MaxEvents, MaxFaults,   \* budgets: external edits, poll events, injected endpoint faults
           MaxTicks,     \* budget: timers that fire (autoReconnectInterval, rescanWaitDuration)
+          MaxBreaks,    \* budget: times the sessions / archives directory becomes unavailable (saves and removals fail)
           Export,       \* TRUE: keep the harness-controllable events of the behaviour in s.h
           RunToBlock,   \* TRUE: the environment (harness) acts only when neither the loop nor a command can move on its own
           Mut           \* "none", or the name of a seeded mutation of the algorithm (to show that the invariants bite)
@@ -75,7 +76,8 @@ InitState(kinds, sp) ==
       lock |-> 0, cpc |-> [i \in DOMAIN kinds |-> "idle"],
       cref |-> [i \in DOMAIN kinds |-> [syn |-> 0, gen |-> 0]],
       result |-> [i \in DOMAIN kinds |-> "none"],
-      edits |-> 0, events |-> 0, faults |-> 0, ticks |-> 0,
+      edits |-> 0, events |-> 0, faults |-> 0, ticks |-> 0, breaks |-> 0,
+      broken |-> {},         \* of {"sessions", "archives"}: the directory is unavailable, saving / removing in it fails
       cp |-> [i \in DOMAIN kinds |-> <<>>],      \* where the loop stood, and who was in flight, when command i was called
       m |-> m2, h |-> <<>>]
 
@@ -95,6 +97,20 @@ StClearError(t) == IF t.lerr THEN W(t, t.status, FALSE, t.ncyc) ELSE t   \* sync
 Connected(t) == t.status \in RunningStatuses                \* resume(): c.state.Status >= Status_Watching
 HaltStatus(kind) == CASE kind = "emptied" -> "halted-on-root-emptied" [] kind = "deletion" -> "halted-on-root-deletion"
                       [] OTHER -> "halted-on-root-type-change"
+
+\* ------------------------------------------------------------------ persistence (encoding.MarshalAndSaveProtobuf, os.Remove)
+\* every save of the session file / the archive and every removal is fallible: it fails while its directory is
+\* unavailable (WriteFileAtomic cannot create its temporary file there), and then leaves the file as it was
+SessionOK(t) == "sessions" \notin t.broken
+ArchiveOK(t) == "archives" \notin t.broken
+SaveSession(t, flag) == IF SessionOK(t) THEN [t EXCEPT !.pausedDisk = flag, !.sessionFile = TRUE] ELSE t
+SaveArchive(t, tree) == IF ArchiveOK(t) THEN [t EXCEPT !.archive = tree] ELSE t
+\* the environment makes a directory unavailable / available again
+BreakSteps(t) ==
+  (IF t.breaks < MaxBreaks /\ ~(\E j \in Ids(t) : KindOf(t, j) = "restart" /\ InFlight(t, j))
+   THEN {H([t EXCEPT !.breaks = @ + 1, !.broken = @ \cup {d}], [a |-> "break", what |-> d]) : d \in {"sessions", "archives"} \ t.broken}
+   ELSE {})
+  \cup {H([t EXCEPT !.broken = @ \ {d}], [a |-> "restore", what |-> d]) : d \in t.broken}
 
 \* ------------------------------------------------------------------ run loop (controller.run / synchronize)
 \* the deferred function of run(): shut down endpoints still held, reset the state, close(done)
@@ -135,10 +151,10 @@ SaveAndFinish(t0) ==
       changes == t.plan.anc \o (IF "alpha" \in okSides THEN ResultsOf(t, "alpha") ELSE <<>>)
                             \o (IF "beta" \in okSides THEN ResultsOf(t, "beta") ELSE <<>>)
       anc2 == IF changes = <<>> THEN t.anc ELSE ApplySeq(t.anc, changes)
-      u == [t EXCEPT !.anc = anc2, !.archive = IF changes = <<>> THEN @ ELSE anc2,
-                     !.pendT = {}, !.tres = [x \in Sides |-> "none"]]
+      u == [(IF changes = <<>> THEN t ELSE SaveArchive(t, anc2)) EXCEPT !.anc = anc2, !.pendT = {}, !.tres = [x \in Sides |-> "none"]]
       miss == \E x \in Sides : t.tres[x] = "missing"
-  IN IF \E x \in Sides : t.tres[x] = "err" THEN SyncReturn(u, FALSE)
+  IN IF changes # <<>> /\ ~ArchiveOK(t) THEN SyncReturn(u, FALSE)        \* "unable to save ancestor"
+     ELSE IF \E x \in Sides : t.tres[x] = "err" THEN SyncReturn(u, FALSE)
      ELSE [StCycleDone(u) EXCEPT !.skipPoll = miss /\ ~t.missing, !.missing = miss /\ ~t.missing,
                     !.resp = IF t.flushHeld # 0 THEN @ \cup {t.flushHeld} ELSE @, !.flushHeld = 0,
                     !.plan = Empty, !.lpc = "top"]
@@ -226,7 +242,8 @@ LoopSteps(t) ==
     [] t.lpc = "syncstart" ->      \* c.synchronizing = make(chan); synchronize(): clear LastError, load the archive
          LET u == StClearError([t EXCEPT !.synGen = @ + 1, !.synOpen = TRUE, !.flushHeld = 0, !.skipPoll = TRUE,
                                          !.retries = 0, !.missing = FALSE]) IN
-         IF t.archive = Gone THEN {SyncReturn(u, FALSE)} ELSE {[u EXCEPT !.anc = t.archive, !.lpc = "top"]}
+         IF t.archive = Gone \/ ~ArchiveOK(t) THEN {SyncReturn(u, FALSE)}        \* "unable to load archive"
+         ELSE {[u EXCEPT !.anc = t.archive, !.lpc = "top"]}
     [] t.lpc = "top" ->
          IF t.skipPoll THEN {ScanCall(t)}
          ELSE {Mon(St([t EXCEPT !.lpc = "poll"], "watching"), Both("Poll", "call"))}
@@ -291,7 +308,8 @@ CmdSteps(t, i) ==
          ELSE LET u == H([t EXCEPT !.m = MCall(@, i, k),
                                    !.cp[i] = IF Export THEN <<t.lpc, {j \in Ids(t) : InFlight(t, j)}>> ELSE <<>>],
                          [a |-> "call", id |-> i, kind |-> k]) IN
-              IF k = "restart" THEN {Set(u, i, IF t.alive THEN "r_lock" ELSE "r_waitcmds")}
+              IF k = "restart" /\ t.broken # {} THEN {}     \* the daemon is not restarted while a directory is away
+              ELSE IF k = "restart" THEN {Set(u, i, IF t.alive THEN "r_lock" ELSE "r_waitcmds")}
               ELSE IF ~t.alive THEN {Finish(u, i, "err")}          \* "did not match any sessions"
               ELSE {Set(u, i, "lock")}
     [] pc = "lock" -> IF t.lock = 0 THEN {Set([t EXCEPT !.lock = i], i, "locked")} ELSE {}
@@ -319,17 +337,30 @@ CmdSteps(t, i) ==
                    CASE k \in {"pause", "terminate"} -> "halted" [] k = "reset" -> "reset_pause" [] k = "resume" -> "resume_go")}
     [] pc = "halted" ->
          IF k = "pause"
-         THEN {Unlock(Finish([t EXCEPT !.paused = TRUE, !.pausedDisk = IF Mut = "pause_not_saved" THEN @ ELSE TRUE,
-                                       !.sessionFile = TRUE], i, "ok"))}
-         ELSE {Set(Unlock([t EXCEPT !.disabled = TRUE, !.sessionFile = FALSE,
-                                    !.archive = IF Mut = "terminate_keeps_archive" THEN @ ELSE Gone]), i, "unregister")}
+         THEN \* c.session.Paused = true, then save; a failed save is reported, the flag in memory stays set
+              IF Mut = "pause_shortcut" /\ t.paused THEN {Unlock(Finish(t, i, "ok"))}      \* "already paused": no save
+              ELSE LET u == [t EXCEPT !.paused = TRUE] IN
+                   {Unlock(Finish(IF Mut = "pause_not_saved" THEN u ELSE SaveSession(u, TRUE), i,
+                                  IF SessionOK(t) THEN "ok" ELSE "err"))}
+         ELSE \* terminate: disabled = true, then both removals are attempted, then their errors are reported; only a
+              \* successful halt is followed by Manager.Terminate's delete(m.sessions, id)
+              LET u == [t EXCEPT !.disabled = TRUE,
+                                 !.sessionFile = IF SessionOK(t) THEN FALSE ELSE @,
+                                 !.archive = IF Mut = "terminate_keeps_archive" \/ ~ArchiveOK(t) THEN @ ELSE Gone]
+              IN IF SessionOK(t) /\ ArchiveOK(t) THEN {Set(Unlock(u), i, "unregister")} ELSE {Unlock(Finish(u, i, "err"))}
     [] pc = "unregister" -> {Finish([t EXCEPT !.alive = FALSE], i, "ok")}     \* Manager.Terminate: delete(m.sessions, id)
-    [] pc = "reset_pause" -> {Set([t EXCEPT !.paused = TRUE, !.pausedDisk = TRUE], i, "reset_archive_r")}
-    [] pc = "reset_archive" -> {Unlock(Finish([t EXCEPT !.archive = Nil], i, "ok"))}
-    [] pc = "reset_archive_r" -> {Set([t EXCEPT !.archive = Nil], i, "resume_go")}
+    \* reset: the inner halt (pause mode) may fail to save - "unable to pause session", the loop stays stopped; the
+    \* archive write may fail - "unable to clear session history", and a session that was running is not resumed
+    [] pc = "reset_pause" ->
+         LET u == SaveSession([t EXCEPT !.paused = TRUE], TRUE) IN
+         IF SessionOK(t) THEN {Set(u, i, "reset_archive_r")} ELSE {Unlock(Finish(u, i, "err"))}
+    [] pc = "reset_archive" -> {Unlock(Finish(SaveArchive(t, Nil), i, IF ArchiveOK(t) THEN "ok" ELSE "err"))}
+    [] pc = "reset_archive_r" ->
+         IF ArchiveOK(t) THEN {Set(SaveArchive(t, Nil), i, "resume_go")} ELSE {Unlock(Finish(t, i, "err"))}
     [] pc = "resume_go" ->                            \* save Paused=false, dial both endpoints, go c.run(...)
-         {Unlock(Finish(StartLoop(u), i, IF u.ends = Sides THEN "ok" ELSE "err"))
-            : u \in DialBoth([t EXCEPT !.paused = FALSE, !.pausedDisk = FALSE, !.ends = {}])}
+         \* c.session.Paused = false, save (a failure is reported at the very end), dial, start the loop regardless
+         {Unlock(Finish(StartLoop(u), i, IF u.ends = Sides /\ SessionOK(t) THEN "ok" ELSE "err"))
+            : u \in DialBoth(SaveSession([t EXCEPT !.paused = FALSE, !.ends = {}], FALSE))}
     [] pc = "send" ->                                 \* flushRequests <- request | <-synchronizing | <-done
          LET room == t.cref[i].gen = t.loopGen /\ Len(t.flushQ) < 1 IN
          IF k = "flushn"
@@ -369,7 +400,8 @@ InternalSteps(t) ==
   (IF t.lpc \in GatePcs THEN {} ELSE IF t.lpc = "poll" THEN PollInternal(t) ELSE LoopSteps(t) \ TimerSteps(t))
   \cup UNION {IF t.cpc[i] = "idle" THEN {} ELSE CmdSteps(t, i) : i \in Ids(t)}
 EnvEnabled == ~RunToBlock \/ InternalSteps(s) = {}
-Next == IF EnvEnabled THEN Loop \/ Edit \/ \E i \in Ids(s) : Command(i)
+Break == s' \in BreakSteps(s)
+Next == IF EnvEnabled THEN Loop \/ Edit \/ Break \/ \E i \in Ids(s) : Command(i)
         ELSE s' \in InternalSteps(s)
 MaxN == 4
 Spec == Init /\ [][Next]_s /\ WF_s(Loop) /\ \A i \in 1..MaxN : WF_s(i \in Ids(s) /\ Command(i))
@@ -383,6 +415,10 @@ NoRestart == ~RestartInFlight(s)
 InvPausedQuiet == C29_PausedQuiet(s.m)
 InvFlushFresh == C29_FlushFresh(s.m)
 InvPauseSurvives == NoRestart => (C29_PauseSurvivesRestart(s.m, ObsState(s)) /\ C29_PauseOnDisk(s.m, ObsDisk(s)))
+\* NOT an invariant of the controller as coded (TLC: resume whose save fails, then a second resume that finds the loop
+\* connected and returns nil without saving - the session file still says paused; see docs/lifecycle.md).  C29 does not
+\* speak about the persistence of "resumed"; kept for the record and counted on real sessions.
+InvResumeOnDisk == NoRestart => ResumeOnDisk(s.m, ObsDisk(s))
 InvTerminatedGone == C29_TerminatedGoneDisk(s.m, ObsDisk(s)) /\ (NoRestart => C29_TerminatedGoneList(s.m, ObsState(s)))
 InvReset == C29_ResetArchive(s.m, ObsDisk(s)) /\ C29_ResetKeepsRoots(s.m, Roots(s))
 InvC11 == C11_NoOpsWhileHalted(s.m) /\ C11_Status(s.m, ObsState(s)) /\ C11_Roots(s.m, Roots(s))
@@ -410,7 +446,7 @@ AllReturn == \A i \in 1..MaxN : (i \in Ids(s) /\ InFlight(s, i)) ~> (i \in Ids(s
 View == [s EXCEPT !.h = <<>>]
 Quiescent(t) == LoopSteps(t) = {} /\ \A i \in Ids(t) : CmdSteps(t, i) = {}
 ExportBehaviour ==
-  (Export /\ Quiescent(s) /\ EditSteps(s) = {})
+  (Export /\ Quiescent(s) /\ EditSteps(s) = {} /\ s.broken = {})
     => PrintT(<<"BEHAVIOUR", ToJson([steps |-> s.h, kinds |-> s.kinds, results |-> s.result,
                                        startPaused |-> s.sp])>>)
 ====
